@@ -128,6 +128,8 @@ def int_mode(name, field, top, tier):
         return "pool"
     if top > 65535 and tier == "quick":
         return "pool"
+    if field == "algorithm" and tier == "quick":
+        return "pool"  # DNSSEC algorithm numbers go through an enum (one path per value, 200-400 s per field): thorough only
     return "all"
 
 
@@ -324,7 +326,7 @@ HARNESSES = [
     Harness("H05b", h05b, h05b_pre, h05b_shards, kind="universal (ints, character-strings, names); finite selection for base64 / hex fields",
             encodes=["dns.rdata.from_text", "dns.rdata.Rdata.to_text", "dns.rdata._escapify", "dns.tokenizer.Tokenizer.get", "dns.tokenizer.Token.unescape",
                      "dns.tokenizer.Token.unescape_to_bytes", "dns.rdata._styled_base64ify", "dns.rdata._styled_hexify", "dns.name.Name.to_text", "dns.name.from_text"],
-            bound="for every specimen and every int / bytes / Name field: ints over the field's whole unsigned range when it is <= 16 bits (thorough: also 32 / 48 bits) and otherwise a symbolic selection from a 30-value boundary pool (also for type mnemonics, signature times, Chaosnet addresses), character-strings of <= 2 (3) fully symbolic octets, names of one or two symbolic one-octet labels (relative or under example.), base64/hex fields from a pool of 10 octet strings; origin and relativize symbolic",
+            bound="for every specimen and every int / bytes / Name field: ints over the field's whole unsigned range when it is <= 16 bits (thorough: also 32 / 48 bits and the DNSSEC algorithm fields) and otherwise a symbolic selection from a 30-value boundary pool (also for type mnemonics, signature times, Chaosnet addresses), character-strings of <= 2 (3) fully symbolic octets, names of one or two symbolic one-octet labels (relative or under example.), base64/hex fields from a pool of 10 octet strings; origin and relativize symbolic",
             stubs=["E2", "E3", "E4", "E5", "E6"], outside="longer strings; list-valued fields; IPv6 / float text (H05d pools)"),
     Harness("H05f", h05f, h05f_pre, lambda tier: [{"two": False, "_timeout": 600, "_path_timeout": 60}] + ([{"two": True, "_timeout": 1800, "_path_timeout": 60}] if tier == "thorough" else []),
             kind="finite selection, exhaustive",
